@@ -32,16 +32,19 @@ template <class Functor> inline bool IndividualFields(util::StringPiece str, con
   unsigned int index = 0;
   for (const FieldRange f : indices) {
     for (; index < f.begin; ++index) {
-      begin = std::find(begin, end, delim) + 1;
-      if (begin >= end) return true;
+      const char *found = std::find(begin, end, delim);
+      // The line has fewer fields than requested.
+      if (found == end) return true;
+      begin = found + 1;
     }
     for (; index < f.end; ++index) {
       const char *found = std::find(begin, end, delim);
       if (!callback(util::StringPiece(begin, found - begin))) {
         return false;
       }
+      // That was the last field of the line.
+      if (found == end) return true;
       begin = found + 1;
-      if (begin >= end) return true;
     }
   }
   return true;
